@@ -1,6 +1,6 @@
-// Verus unit: the flow slot's walk over a resource's traffic controllers (C07 "the calling thread is actually held",
+// Verus unit: the flow slot's and the hotspot slot's walk over a resource's traffic controllers (C07 "the calling thread is actually held",
 // C01 "rejected iff some rule rejects" for the flow slot).
-// The body of <flow::Slot as RuleCheckSlot>::check is extracted from the current source on every run. What the slot
+// The bodies of <flow::Slot as RuleCheckSlot>::check and <hotspot::Slot as RuleCheckSlot>::check are extracted from the current source on every run. What the slot
 // calls is declared here with assumed contracts (see the evidence file): the two effectful callees append to a ghost
 // trace (`tr`, erased at compile time), which is how "what was slept, when" becomes visible to the postcondition.
 use vstd::prelude::*;
@@ -108,10 +108,31 @@ pub broadcast proof fn lemma_in_order_push_sleep(t: Seq<Ev>, ids: Seq<int>, batc
     }
     assert(nchecks(t1, t1.len() as int) == nchecks(t1, t.len() as int) + 0);
 }
+/// every consultation so far carried the caller's batch and none of them blocked (used where controllers may be skipped)
+pub open spec fn calm(t: Seq<Ev>, batch: u32) -> bool {
+    forall|j: int| 0 <= j < t.len() ==> match #[trigger] t[j] {
+        Ev::Check { batch: b, v, .. } => b == batch && !(v is Blocked),
+        Ev::Sleep(_) => true,
+    }
+}
+pub broadcast proof fn lemma_calm_push(t: Seq<Ev>, batch: u32, e: Ev)
+    requires calm(t, batch), e is Sleep || (e is Check && e->batch == batch && !(e->v is Blocked)),
+    ensures #[trigger] calm(t.push(e), batch),
+{
+    let t1 = t.push(e);
+    assert forall|j: int| 0 <= j < t1.len() implies match #[trigger] t1[j] {
+        Ev::Check { batch: b, v, .. } => b == batch && !(v is Blocked),
+        Ev::Sleep(_) => true,
+    } by {
+        if j < t.len() { assert(t1[j] == t[j]); }
+    }
+}
 } // mod tr
-use tr::*;
+pub mod flow {
+use vstd::prelude::*;
+use super::tr::*;
 use std::sync::Arc;
-broadcast use {tr::lemma_held_push, tr::lemma_held_push_wait_sleep, tr::lemma_in_order_push_check, tr::lemma_in_order_push_sleep, tr::lemma_consulted_push};
+broadcast use {super::tr::lemma_held_push, super::tr::lemma_held_push_wait_sleep, super::tr::lemma_in_order_push_check, super::tr::lemma_in_order_push_sleep, super::tr::lemma_consulted_push};
 // ---- abstract stand-ins for the types the slot touches (declared, not extracted) ----
 #[verifier::external_body] pub struct BlockError { _p: u8 }
 pub enum TokenResult { Pass, Blocked(BlockError), Wait(u64) }
@@ -183,6 +204,81 @@ impl Slot {
 //@ proof-before `ctx.set_result(r);`: proof { assert(tr@.drop_last() =~= t0); }
 //@end
 }
+
+} // mod flow
+
+pub mod hotspot {
+use vstd::prelude::*;
+use super::tr::*;
+use std::sync::Arc;
+broadcast use {super::tr::lemma_held_push, super::tr::lemma_held_push_wait_sleep, super::tr::lemma_calm_push};
+// ---- abstract stand-ins for the types the hotspot slot touches (declared, not extracted) ----
+#[verifier::external_body] pub struct BlockError { _p: u8 }
+pub enum TokenResult { Pass, Blocked(BlockError), Wait(u64) }
+pub open spec fn verdict_of(r: TokenResult) -> Verdict {
+    match r { TokenResult::Pass => Verdict::Pass, TokenResult::Blocked(_) => Verdict::Blocked, TokenResult::Wait(w) => Verdict::Wait(w) }
+}
+#[verifier::external_body] pub struct Controller { _p: u8 }
+#[verifier::external_body] pub struct ParamKey { _p: u8 }
+#[verifier::external_body] pub struct ResourceWrapper { _p: u8 }
+#[verifier::external_body] pub struct SentinelInput { _p: u8 }
+#[verifier::external_body] pub struct EntryContext { _p: u8 }
+impl SentinelInput {
+    pub uninterp spec fn batch(&self) -> u32;
+    #[verifier::external_body] pub fn batch_count(&self) -> (r: u32) ensures r == self.batch() { unimplemented!() }
+}
+impl ResourceWrapper {
+    #[verifier::external_body] pub fn name(&self) -> (r: &String) { unimplemented!() }
+}
+impl TokenResult {
+    #[verifier::external_body] pub fn clone(&self) -> (r: TokenResult) ensures r == *self { unimplemented!() }
+}
+impl EntryContext {
+    pub uninterp spec fn res(&self) -> TokenResult;
+    pub uninterp spec fn inp(&self) -> SentinelInput;
+    #[verifier::external_body] pub fn resource(&self) -> (r: &ResourceWrapper) { unimplemented!() }
+    #[verifier::external_body] pub fn input(&self) -> (r: &SentinelInput) ensures *r == self.inp() { unimplemented!() }
+    #[verifier::external_body] pub fn result(&self) -> (r: &TokenResult) ensures *r == self.res() { unimplemented!() }
+    #[verifier::external_body] pub fn set_result(&mut self, r: TokenResult)
+        ensures final(self).res() == r, final(self).inp() == old(self).inp() { unimplemented!() }
+}
+impl Controller {
+    pub uninterp spec fn id(&self) -> int;
+    #[verifier::external_body] pub fn extract_args(&self, ctx: &EntryContext) -> (r: Option<ParamKey>) { unimplemented!() }
+    #[verifier::external_body]
+    pub fn perform_checking(&self, Tracked(tr): Tracked<&mut Ghost<Seq<Ev>>>, arg: ParamKey, batch_count: u32) -> (r: TokenResult)
+        ensures final(tr)@ == old(tr)@.push(Ev::Check { ctl: self.id(), batch: batch_count, v: verdict_of(r) })
+    { unimplemented!() }
+}
+#[verifier::external_body]
+fn get_traffic_controller_list_for(name: &String) -> (r: Vec<Arc<Controller>>) { unimplemented!() }
+#[verifier::external_body]
+fn sleep_for_ns(Tracked(tr): Tracked<&mut Ghost<Seq<Ev>>>, ns: u64)
+    ensures final(tr)@ == old(tr)@.push(Ev::Sleep(ns))
+{ unimplemented!() }
+
+pub struct Slot {}
+impl Slot {
+//@extract-fn file=core/hotspot/slot.rs fn=check within=`impl RuleCheckSlot for Slot`
+//@ ret: r
+//@ subst: `ctx: &mut EntryContext` => `ctx: &mut EntryContext, Tracked(tr): Tracked<&mut Ghost<Seq<Ev>>>`
+//@ subst: `tc.perform_checking(` => `tc.perform_checking(Tracked(tr), `
+//@ subst: `utils::sleep_for_ns(` => `sleep_for_ns(Tracked(tr), `
+//@ subst: `for tc in tcs` => `for tc in it: tcs`
+//@ requires: old(tr)@.len() == 0
+//@ ensures: held(final(tr)@)
+//@ ensures: final(ctx).inp() == old(ctx).inp()
+//@ ensures: r is Blocked && !(old(ctx).res() is Blocked) ==> final(tr)@.len() > 0 && (final(tr)@.last() matches Ev::Check { v: Verdict::Blocked, .. }) && calm(final(tr)@.drop_last(), old(ctx).inp().batch()) && final(ctx).res() == r
+//@ ensures: !(r is Blocked) ==> calm(final(tr)@, old(ctx).inp().batch()) && r == old(ctx).res()
+//@ invariant[0]: held(tr@)
+//@ invariant[0]: calm(tr@, old(ctx).inp().batch())
+//@ invariant[0]: *ctx == *old(ctx)
+//@ invariant[0]: batch == old(ctx).inp().batch()
+//@ proof-before `let r = tc.perform_checking`: let ghost t0 = tr@;
+//@ proof-before `ctx.set_result(r);`: proof { assert(tr@.drop_last() =~= t0); }
+//@end
+}
+} // mod hotspot
 
 proof fn verif_canary() { assert(false); }
 
